@@ -83,6 +83,10 @@ def gen(tier, rng, n_quick=1800):
                     for c in leafdefs:
                         hist += [(1, ("get",)), (1, ("acq", c, "ex", "try")), (1, ("gdrop",))]
                     hist += [(1, ("get",)), (1, ("acq", root, m, "try")), (1, ("gdrop",))]
+                    if rng.random() < 0.3:
+                        # a non-acquiring call on what may now contain a killed lock: Debug formatting must neither wait nor
+                        # spin, whatever state the fault left behind
+                        hist += [(1, ("fmt", root))]
                     # and one blocking acquisition at the very end (a call that waits ends the history): a killed
                     # lock must panic instead of waiting, also when its raw lock was left held
                     r = rng.random()
